@@ -16,43 +16,43 @@ import (
 )
 
 type HarnessResult struct {
-	Name        string
-	Paths       int
-	Decisions   int
-	BranchQ     int
-	AssertQ     int
-	AssertOK    int
-	AssertTriv  int
-	Unknown     int
-	Status      map[string]int
-	Inconcl     []string // details of inconclusive paths (deduplicated)
-	Violations  []Violation
-	Funcs       map[string]bool
-	Reached     map[string]bool
-	Asserts     map[string]int
-	Witnesses   [][]Draw
-	SolverS     float64
+	Name         string
+	Paths        int
+	Decisions    int
+	BranchQ      int
+	AssertQ      int
+	AssertOK     int
+	AssertTriv   int
+	Unknown      int
+	Status       map[string]int
+	Inconcl      []string // details of inconclusive paths (deduplicated)
+	Violations   []Violation
+	Funcs        map[string]bool
+	Reached      map[string]bool
+	Asserts      map[string]int
+	Witnesses    [][]Draw
+	SolverS      float64
 	SolverChecks int
-	WallS       float64
-	Steps       int
-	MaxPaths    bool
+	WallS        float64
+	Steps        int
+	MaxPaths     bool
 	StoppedEarly bool
 }
 
 type explorer struct {
-	eng   *Engine
-	h     *HarnessSpec
-	mu    sync.Mutex
-	cond  *sync.Cond
-	work  [][]int64
-	active int
-	res   *HarnessResult
-	maxPaths int
-	stop  bool
-	inconSeen map[string]bool
-	violSeen map[string]bool
-	violCount map[string]int
-	deadline time.Time
+	eng                 *Engine
+	h                   *HarnessSpec
+	mu                  sync.Mutex
+	cond                *sync.Cond
+	work                [][]int64
+	active              int
+	res                 *HarnessResult
+	maxPaths            int
+	stop                bool
+	inconSeen           map[string]bool
+	violSeen            map[string]bool
+	violCount           map[string]int
+	deadline            time.Time
 	stoppedForViolation bool
 }
 
@@ -181,10 +181,24 @@ func (x *explorer) merge(out *PathResult) {
 	}
 	for _, v := range out.violations {
 		key := v.Kind + "|" + v.Label
-		if x.violCount[key] >= 6 {
+		// keep a varied set of candidates per assertion: at most two per structural shape
+		// (the values of the choice / bool / length draws), at most twelve in all - a
+		// candidate whose native confirmation depends on real MAC or cipher values may not
+		// reproduce while one of another shape does
+		shape := key + "|"
+		for _, d := range v.Tape {
+			switch d.Kind {
+			case "choice", "bool", "len":
+				if len(d.Val) > 0 {
+					shape += fmt.Sprintf("%d,", d.Val[0])
+				}
+			}
+		}
+		if x.violCount[key] >= 12 || x.violCount[shape] >= 2 {
 			continue
 		}
 		x.violCount[key]++
+		x.violCount[shape]++
 		r.Violations = append(r.Violations, v)
 		// a counterexample decides the check: look for a little longer, then stop
 		grace := time.Now().Add(30 * time.Second)
@@ -205,7 +219,7 @@ func (e *Engine) runPath(h *HarnessSpec, sol *Solver, prefix []int64) (out *Path
 		eng: e, h: h, sol: sol, tt: NewTermTable(), prefix: prefix, out: out,
 		pcSet: map[*Term]bool{}, globals: map[*ssa.Global]*Value{}, pkgInit: map[*ssa.Package]bool{},
 		pkgInitStarted: map[*ssa.Package]bool{},
-		lazyIn: map[*ssa.Global]bool{}, loopVisit: map[*ssa.BasicBlock]int{}, funcsSeen: map[*ssa.Function]bool{},
+		lazyIn:         map[*ssa.Global]bool{}, loopVisit: map[*ssa.BasicBlock]int{}, funcsSeen: map[*ssa.Function]bool{},
 		reached: map[string]bool{}, assertsSeen: map[string]int{},
 	}
 	defer func() {
